@@ -58,6 +58,11 @@ CHECKS = {
             "Random histories of <=30 assignment/prefix/export/unset/read/cd/redirection operations over a generated tree with symlinks, non-directories and missing entries; every intermediate state is observed, not only the final one.",
             "model in lib/c09.py; symlinks resolved with realpath as cd canonicalises",
             "DESIGN.md 3 C09"),
+    "C19": ("exploration",
+            "runtime monitoring of two builds (overflow checks on / off): stdout+status of `-c EXPR` and observer argv of `$(EXPR)` compared with an exact reference evaluator and a PEG-equivalent reference parser; panic/abort detection",
+            "Random expression trees over i64-boundary operands, all operator pairs, every boundary-operand pair per operator, and every classified string of length<=4 (thorough 5) over the arithmetic alphabet are evaluated by both builds.",
+            "where an intermediate leaves i64 only absence of a crash is demanded; $(EXPR) used only for parenthesis-free expressions",
+            "DESIGN.md 3 C19"),
 }
 
 NOT_YET = "check not built yet (work in progress); runtime monitoring is applicable and planned, see DESIGN.md section 3"
